@@ -45,7 +45,7 @@ def run_one(lp, S, a):
         return x * 10
     orig_get = None
     status = "done"
-    pool = lp.LazyPool(T)
+    pool = lp.LazyPool(a.get("threads_arg", T))       # the argument as the caller gives it (None / 0 / negative are clamped to one worker)
     sch.register("c")
     try:
         try:
@@ -167,6 +167,10 @@ def gen_cases(ctx):
         # infinite source with early exit
         for k in [1, P, P + 3]:
             cases.append({"T": T, "n": None, "stop_after": k, "seed": rng.randrange(1 << 30), "reuse": True})
+    # thread-count arguments that the constructor clamps to a single worker
+    for arg in (None, 0, -1, -3):
+        for n in (0, 1, 5):
+            cases.append({"T": 1, "threads_arg": arg, "n": n, "seed": rng.randrange(1 << 30), "reuse": True})
     if ctx.thorough:
         for _ in range(300):
             T = rng.choice([1, 2, 3, 4]); n = rng.randrange(0, 3 * T + 6)
